@@ -1567,7 +1567,7 @@ _ical_pull(struct ical_parser_s p[static 1U])
 		 * to start with a single allowed whitespace in
 		 * which case we enter the normal chop_more
 		 * procedure */
-		if (LIKELY(*BP != ' ' && *BP != '\t')) {
+		if (LIKELY(!BZ || (*BP != ' ' && *BP != '\t'))) {
 			goto proc;
 		}
 		/* just get on with it */
@@ -1600,6 +1600,8 @@ chop_more:
 			 * fact a complete line */
 			p->stash[p->six] = '\001';
 		}
+		/* this buffer is done with */
+		BI += BZ;
 	} else {
 		const char *bp = BP;
 		const size_t llen = eol - bp;
